@@ -218,24 +218,77 @@ var (
 	maxTxChoices = []int{2, 4, 8, 8, 64, 64}
 )
 
+// Profiles widen the two dimensions a small alphabet of short txs cannot reach: "wide" puts more than a dozen
+// txs in the pool at once (many of them with equal priority), "long" draws tx lengths around the points where the
+// length prefix of the block-data encoding grows (127/128, 255/256, 16383/16384).
+var (
+	profiles       = []string{"small", "small", "small", "small", "wide", "wide", "long", "wide-long"}
+	longLens       = []int{1, 3, 100, 126, 127, 128, 129, 130, 200, 254, 255, 256, 257, 300}
+	hugeLens       = []int{16382, 16383, 16384, 16385}
+	preChoicesLong = []int64{102, 130, 131, 258, 259, 303, 1 << 20, 1 << 20}
+	maxTxLong      = []int{128, 255, 256, 1 << 20, 1 << 20, 1 << 20}
+)
+
+func (c conf) wide() bool { return strings.HasPrefix(c.Profile, "wide") }
+func (c conf) long() bool { return strings.HasSuffix(c.Profile, "long") }
+
+func preChoicesFor(c conf) []int64 {
+	if c.long() {
+		return preChoicesLong
+	}
+	if c.wide() {
+		return []int64{7, 10, 100, 100}
+	}
+	return preChoices
+}
+
 func genConf(t *rapid.T, v1 bool) conf {
 	c := conf{V1: v1}
+	c.Profile = rapid.SampledFrom(profiles).Draw(t, "profile")
+	c.Alpha = 12
 	c.Size = rapid.IntRange(1, 8).Draw(t, "size")
-	for i := range c.Lens {
-		c.Lens[i] = rapid.SampledFrom(lenChoices).Draw(t, "len")
+	if c.wide() {
+		c.Alpha = rapid.IntRange(20, nAlpha).Draw(t, "alphabet")
+		c.Size = rapid.IntRange(13, 40).Draw(t, "sizeWide")
+	}
+	for i := 0; i < c.Alpha; i++ {
+		if c.long() {
+			c.Lens[i] = rapid.SampledFrom(longLens).Draw(t, "len")
+		} else {
+			c.Lens[i] = rapid.SampledFrom(lenChoices).Draw(t, "len")
+		}
+	}
+	if c.long() {
+		for k := rapid.IntRange(0, 2).Draw(t, "hugeTxs"); k > 0; k-- {
+			c.Lens[rapid.IntRange(0, c.Alpha-1).Draw(t, "hugeIdx")] = rapid.SampledFrom(hugeLens).Draw(t, "hugeLen")
+		}
 	}
 	if rapid.IntRange(0, 7).Draw(t, "emptytx") == 0 {
 		c.Lens[0] = 0
 	}
-	switch rapid.SampledFrom([]string{"tight", "mid", "mid", "loose"}).Draw(t, "bytesKind") {
-	case "tight":
-		c.MaxTxsBytes = int64(rapid.IntRange(2, 12).Draw(t, "maxTxsBytes"))
-	case "mid":
-		c.MaxTxsBytes = int64(rapid.IntRange(10, 40).Draw(t, "maxTxsBytes"))
-	default:
-		c.MaxTxsBytes = 1000
+	tight, mid, loose := [2]int{2, 12}, [2]int{10, 40}, int64(1000)
+	kinds := []string{"tight", "mid", "mid", "loose"}
+	switch {
+	case c.long():
+		tight, mid, loose, kinds = [2]int{128, 700}, [2]int{700, 6000}, 1<<30, []string{"tight", "mid", "loose", "loose"}
+	case c.wide():
+		tight, mid, loose, kinds = [2]int{10, 40}, [2]int{40, 200}, 1<<30, []string{"mid", "loose", "loose", "loose"}
 	}
-	c.MaxTxBytes = rapid.SampledFrom(maxTxChoices).Draw(t, "maxTxBytes")
+	switch rapid.SampledFrom(kinds).Draw(t, "bytesKind") {
+	case "tight":
+		c.MaxTxsBytes = int64(rapid.IntRange(tight[0], tight[1]).Draw(t, "maxTxsBytes"))
+	case "mid":
+		c.MaxTxsBytes = int64(rapid.IntRange(mid[0], mid[1]).Draw(t, "maxTxsBytes"))
+	default:
+		c.MaxTxsBytes = loose
+	}
+	if c.long() {
+		c.MaxTxBytes = rapid.SampledFrom(maxTxLong).Draw(t, "maxTxBytes")
+	} else if c.wide() {
+		c.MaxTxBytes = rapid.SampledFrom([]int{8, 64, 64, 64}).Draw(t, "maxTxBytes")
+	} else {
+		c.MaxTxBytes = rapid.SampledFrom(maxTxChoices).Draw(t, "maxTxBytes")
+	}
 	switch rapid.SampledFrom(cacheKinds).Draw(t, "cacheKind") {
 	case "none":
 		c.CacheSize = 0
@@ -291,6 +344,7 @@ type run struct {
 	// last committed txs, for biased re-submission
 	lastCommitted []int
 	classes       map[string]int
+	maxPool       int
 }
 
 func (r *run) logf(format string, a ...interface{}) {
@@ -308,7 +362,7 @@ func (r *run) failf(format string, a ...interface{}) {
 func (r *run) poolString() string {
 	var b strings.Builder
 	for _, e := range r.m.ordered() {
-		fmt.Fprintf(&b, "[%c len=%d gas=%d prio=%d sender=%q h=%d] ", 'A'+e.idx, len(r.m.txs[e.idx]), e.gas, e.prio, e.sender, e.height)
+		fmt.Fprintf(&b, "[%c len=%d gas=%d prio=%d sender=%q h=%d] ", letter(e.idx), len(r.m.txs[e.idx]), e.gas, e.prio, e.sender, e.height)
 	}
 	return b.String()
 }
@@ -317,7 +371,7 @@ func name(txs []types.Tx, alpha map[string]int) string {
 	var b strings.Builder
 	for _, tx := range txs {
 		if i, ok := alpha[string(tx)]; ok {
-			b.WriteByte(byte('A' + i))
+			b.WriteByte(letter(i))
 		} else {
 			b.WriteByte('?')
 		}
@@ -328,7 +382,7 @@ func name(txs []types.Tx, alpha map[string]int) string {
 func (r *run) want(es []*entry) string {
 	var b strings.Builder
 	for _, e := range es {
-		b.WriteByte(byte('A' + e.idx))
+		b.WriteByte(letter(e.idx))
 	}
 	return b.String()
 }
@@ -374,13 +428,16 @@ func (r *run) compare(after string) {
 	if mp.Size() > r.c.Size || mp.SizeBytes() > r.c.MaxTxsBytes {
 		r.failf("after %s: limits exceeded: Size %d (max %d), SizeBytes %d (max %d)", after, mp.Size(), r.c.Size, mp.SizeBytes(), r.c.MaxTxsBytes)
 	}
-	for i := 0; i < nAlpha; i++ {
+	for i := 0; i < r.c.Alpha; i++ {
 		if got, want := r.s.has(m.txs[i]), m.cacheHas(i); got != want {
-			r.failf("after %s: cache remembers %c = %v, reference %v", after, 'A'+i, got, want)
+			r.failf("after %s: cache remembers %c = %v, reference %v", after, letter(i), got, want)
 		}
 	}
 	if len(m.pool) >= r.c.Size {
 		r.cls("state:full-by-count")
+	}
+	if len(m.pool) > r.maxPool {
+		r.maxPool = len(m.pool)
 	}
 }
 
@@ -396,15 +453,19 @@ func (r *run) pickTx(label string) int {
 			return r.lastCommitted[rapid.IntRange(0, len(r.lastCommitted)-1).Draw(t, label+".k")]
 		}
 	}
-	return rapid.IntRange(0, nAlpha-1).Draw(t, label+".i")
+	return rapid.IntRange(0, r.c.Alpha-1).Draw(t, label+".i")
 }
 
 func (r *run) opCheckTx(t *rapid.T) {
 	if r.dead {
 		return
 	}
+	r.checkTx(t, r.pickTx("tx"))
+}
+
+// checkTx submits alphabet tx idx from a drawn peer and compares with the reference.
+func (r *run) checkTx(t *rapid.T, idx int) {
 	m := r.m
-	idx := r.pickTx("tx")
 	peer := uint16(rapid.IntRange(0, 4).Draw(t, "peer"))
 	pooled, remembered := m.find(idx) >= 0, m.cacheHas(idx)
 	committedRemembered := !pooled && remembered && contains(r.lastCommitted, idx)
@@ -418,7 +479,7 @@ func (r *run) opCheckTx(t *rapid.T) {
 	cbN := 0
 	err := r.s.mp.CheckTx(m.txs[idx], func(*abci.Response) { cbN++ }, mempool.TxInfo{SenderID: peer})
 	kind := errKind(err)
-	r.logf("CheckTx(%c len=%d, peer %d) verdict=%+v -> %s   [model: %s]", 'A'+idx, len(m.txs[idx]), peer, r.a.tab[idx], kind, exp.note)
+	r.logf("CheckTx(%c len=%d, peer %d) verdict=%+v -> %s   [model: %s]", letter(idx), len(m.txs[idx]), peer, r.a.tab[idx], kind, exp.note)
 	r.cls("checktx:" + exp.note)
 	if committedRemembered {
 		r.cls("checktx:committed-and-remembered")
@@ -442,7 +503,7 @@ func (r *run) opCheckTx(t *rapid.T) {
 				r.c.CacheSize, name(listed, r.a.alpha), r.s.mp.Size(), r.want(before))
 		}
 		if kind != "ok" && kind != "incache" {
-			r.failf("re-submission of pooled tx %c: unexpected error %v", 'A'+idx, err)
+			r.failf("re-submission of pooled tx %c: unexpected error %v", letter(idx), err)
 		}
 		if r.c.CacheSize > 0 && !r.s.has(m.txs[idx]) {
 			m.cacheRemove(idx)
@@ -452,20 +513,28 @@ func (r *run) opCheckTx(t *rapid.T) {
 	}
 	if len(exp.refuse) == 0 {
 		if err != nil {
-			r.failf("CheckTx(%c) returned %v; reference: no ground for refusal (%s)", 'A'+idx, err, exp.note)
+			r.failf("CheckTx(%c) returned %v; reference: no ground for refusal (%s)", letter(idx), err, exp.note)
 		}
 	} else {
 		if err == nil {
-			r.failf("CheckTx(%c) returned nil; reference: must be refused (%v)", 'A'+idx, exp.refuse)
+			r.failf("CheckTx(%c) returned nil; reference: must be refused (%v)", letter(idx), exp.refuse)
 		}
 		if !containsS(exp.refuse, kind) {
-			r.failf("CheckTx(%c) refused with %v; reference grounds %v", 'A'+idx, err, exp.refuse)
+			r.failf("CheckTx(%c) refused with %v; reference grounds %v", letter(idx), err, exp.refuse)
 		}
 		if committedRemembered {
 			r.cls("checktx:committed-remembered-refused")
 		}
 	}
-	r.compare(fmt.Sprintf("CheckTx(%c)", 'A'+idx))
+	r.compare(fmt.Sprintf("CheckTx(%c)", letter(idx)))
+}
+
+func seqInts(n int) []int {
+	l := make([]int, n)
+	for i := range l {
+		l[i] = i
+	}
+	return l
 }
 
 func contains(l []int, x int) bool {
@@ -523,7 +592,7 @@ func (r *run) opUpdate(t *rapid.T) {
 	}
 	for k := rapid.IntRange(0, 2).Draw(t, "foreign"); k > 0; k-- {
 		// txs this node never admitted (or no longer holds), possibly repeated inside the block
-		committed = append(committed, rapid.IntRange(0, nAlpha-1).Draw(t, "foreignTx"))
+		committed = append(committed, rapid.IntRange(0, r.c.Alpha-1).Draw(t, "foreignTx"))
 	}
 	if len(committed) > 1 && rapid.Bool().Draw(t, "shuffle") {
 		committed = rapid.Permutation(committed).Draw(t, "order")
@@ -544,7 +613,7 @@ func (r *run) opUpdate(t *rapid.T) {
 	preMax, postOn, postG := m.preMax, m.postOn, m.postG
 	desc := ""
 	if rapid.IntRange(0, 2).Draw(t, "newPre") == 0 {
-		preMax = rapid.SampledFrom(preChoices).Draw(t, "preMax")
+		preMax = rapid.SampledFrom(preChoicesFor(r.c)).Draw(t, "preMax")
 		pre = mkPre(preMax, rapid.Bool().Draw(t, "preViaState"))
 		desc += fmt.Sprintf(" pre<=%d", preMax)
 	}
@@ -582,7 +651,7 @@ func (r *run) opUpdate(t *rapid.T) {
 	}
 	var cs strings.Builder
 	for k, idx := range committed {
-		cs.WriteByte(byte('A' + idx))
+		cs.WriteByte(letter(idx))
 		if !oks[k] {
 			cs.WriteByte('!')
 		}
@@ -629,6 +698,9 @@ func (r *run) opReapMaxTxs(t *rapid.T) {
 	r.cls("reaptxs")
 	if n >= 0 && n < len(ord) {
 		r.cls("reaptxs:limit-binds")
+	}
+	if len(ord) > 12 {
+		r.cls("reaptxs:pool-above-12")
 	}
 	if gs != ws {
 		if lib.IsKnown(idReap) && n >= 0 && n < len(ord) && gs == r.want(ord[:n+1]) {
@@ -689,6 +761,15 @@ func (r *run) opReapBytesGas(t *rapid.T) {
 	r.cls("reapbytesgas")
 	if p < len(ord) {
 		r.cls("reapbytesgas:limit-binds")
+		for _, e := range ord[:p+1] {
+			if len(m.txs[e.idx]) >= 128 {
+				r.cls("reapbytesgas:limit-binds-behind-long-tx")
+				break
+			}
+		}
+	}
+	if len(ord) > 12 {
+		r.cls("reapbytesgas:pool-above-12")
 	}
 	if gs != ws {
 		r.failf("ReapMaxBytesMaxGas(maxBytes=%d, maxGas=%d) returned %q; reference (longest prefix within both limits): %q of %s", maxBytes, maxGas, gs, ws, r.poolString())
@@ -714,10 +795,10 @@ func (r *run) opRemove(t *rapid.T) {
 	idx := r.pickTx("rm")
 	present := r.m.poolRemove(idx)
 	err := r.s.mp.RemoveTxByKey(types.Tx(r.m.txs[idx]).Key())
-	r.logf("RemoveTxByKey(%c) -> %v", 'A'+idx, err)
+	r.logf("RemoveTxByKey(%c) -> %v", letter(idx), err)
 	r.cls(fmt.Sprintf("remove:present=%v", present))
 	if present != (err == nil) {
-		r.failf("RemoveTxByKey(%c): err=%v, reference: present=%v", 'A'+idx, err, present)
+		r.failf("RemoveTxByKey(%c): err=%v, reference: present=%v", letter(idx), err, present)
 	}
 	r.compare("RemoveTxByKey")
 }
@@ -726,7 +807,7 @@ func (r *run) opSetVerdict(t *rapid.T) {
 	if r.dead {
 		return
 	}
-	idx := rapid.IntRange(0, nAlpha-1).Draw(t, "i")
+	idx := rapid.IntRange(0, r.c.Alpha-1).Draw(t, "i")
 	v := r.a.tab[idx]
 	nv := genVerdict(t)
 	if r.m.find(idx) >= 0 {
@@ -735,22 +816,22 @@ func (r *run) opSetVerdict(t *rapid.T) {
 		nv.Gas, nv.Sender = v.Gas, v.Sender
 	}
 	r.a.set(idx, nv)
-	r.logf("SetVerdict(%c) = %+v", 'A'+idx, nv)
+	r.logf("SetVerdict(%c) = %+v", letter(idx), nv)
 }
 
 func runHistory(rt *rapid.T, testName string, v1 bool) {
 	c := genConf(rt, v1)
 	a := &app{alpha: map[string]int{}}
 	m := &model{c: c, height: c.InitHeight, preMax: -1}
-	for i := 0; i < nAlpha; i++ {
-		m.txs[i] = []byte(strings.Repeat(string(rune('A'+i)), c.Lens[i]))
+	for i := 0; i < c.Alpha; i++ {
+		m.txs[i] = []byte(strings.Repeat(string(rune(letter(i))), c.Lens[i]))
 		a.alpha[string(m.txs[i])] = i
 		a.tab[i] = genVerdict(rt)
 	}
 	var pre mempool.PreCheckFunc
 	var post mempool.PostCheckFunc
 	if rapid.IntRange(0, 3).Draw(rt, "initPre") == 0 {
-		m.preMax = rapid.SampledFrom(preChoices).Draw(rt, "preMax")
+		m.preMax = rapid.SampledFrom(preChoicesFor(c)).Draw(rt, "preMax")
 		pre = mkPre(m.preMax, false)
 	}
 	if rapid.IntRange(0, 3).Draw(rt, "initPost") == 0 {
@@ -763,7 +844,25 @@ func runHistory(rt *rapid.T, testName string, v1 bool) {
 	}
 	defer s.stop()
 	r := &run{name: testName, t: rt, c: c, a: a, s: s, m: m, classes: map[string]int{}}
-	r.logf("initial verdicts %+v pre=%d post=%v/%d", a.tab, m.preMax, m.postOn, m.postG)
+	r.logf("initial verdicts %+v pre=%d post=%v/%d", a.tab[:c.Alpha], m.preMax, m.postOn, m.postG)
+	if c.Profile != "small" {
+		// fill up first, so that most of the history runs on a well-stocked pool
+		most := c.Alpha
+		if !c.wide() && most > c.Size+2 {
+			most = c.Size + 2
+		}
+		order := rapid.Permutation(seqInts(c.Alpha)).Draw(rt, "prefillOrder")
+		least := 0
+		if c.wide() {
+			least = most / 2
+		}
+		for _, idx := range order[:rapid.IntRange(least, most).Draw(rt, "prefill")] {
+			if r.dead {
+				break
+			}
+			r.checkTx(rt, idx)
+		}
+	}
 
 	actions := map[string]func(*rapid.T){}
 	add := func(name string, weight int, f func(*rapid.T)) {
@@ -784,7 +883,10 @@ func runHistory(rt *rapid.T, testName string, v1 bool) {
 		r.failf("harness: the application saw %d transactions outside the alphabet", unknown)
 	}
 	nontrivial := m.liveEvict > 0 || m.fullSeen > 0 || m.recheckRejects > 0
-	cl := []string{fmt.Sprintf("cfg:cache-%s", cacheClass(c)), fmt.Sprintf("cfg:recheck=%v", c.Recheck), fmt.Sprintf("cfg:keep=%v", c.Keep)}
+	cl := []string{fmt.Sprintf("cfg:cache-%s", cacheClass(c)), fmt.Sprintf("cfg:recheck=%v", c.Recheck), fmt.Sprintf("cfg:keep=%v", c.Keep), "cfg:profile-" + c.Profile}
+	if r.maxPool > 12 {
+		cl = append(cl, "hist:pool-above-12")
+	}
 	if c.V1 {
 		cl = append(cl, fmt.Sprintf("cfg:ttl=%d", c.TTLBlocks))
 	}
